@@ -56,7 +56,13 @@ def num_eq(written, read):
 def compare_solution(r, back, tag):
     if [p.planning_problem_id for p in back.planning_problem_solutions] != [p["pp_id"] for p in r["pps"]]:
         raise Violation(tag + "pp-ids", "%r" % [p.planning_problem_id for p in back.planning_problem_solutions])
+    if back.benchmark_id != gs.reference_benchmark_id(r):
+        raise Violation(tag + "benchmark-id", "%r read back as %r" % (gs.reference_benchmark_id(r), back.benchmark_id))
     for p, bp in zip(r["pps"], back.planning_problem_solutions):
+        if (bp.vehicle_model.name, bp.vehicle_type.value, bp.cost_function.name) != (p["model"], p["vtype"], p["cost"]):
+            raise Violation(tag + "vehicle-or-cost", "planning problem %d: %r read back as %r" % (
+                p["pp_id"], (p["model"], p["vtype"], p["cost"]),
+                (bp.vehicle_model.name, bp.vehicle_type.value, bp.cost_function.name)))
         if bp.trajectory_type.name != p["kind"]:
             raise Violation(tag + "trajectory-type", "%s -> %s" % (p["kind"], bp.trajectory_type.name))
         if type(bp.trajectory.state_list[0]) is not gs.STATE_CLASS[p["kind"]]:
@@ -148,6 +154,16 @@ def check_roundtrip(r, ctx):
         back = CommonRoadSolutionReader.fromstring(doc)
     compare_solution(r, back, "")
     independent_decode(r, doc)
+    r2 = gs.apply_edit(sol, r)
+    if r2 is not None:
+        # the same Solution object is edited after it has been written once, and written again
+        doc2 = CommonRoadSolutionWriter(sol).dump(pretty=r["pretty"])
+        with warnings.catch_warnings():
+            warnings.simplefilter("ignore")
+            back_e = CommonRoadSolutionReader.fromstring(doc2)
+        compare_solution(r2, back_e, "after-edit-")
+        independent_decode(r2, doc2)
+        ctx.label("edited-after-first-write")
     # metamorphic: the reader guarantees ascending time steps whatever the order of the state elements
     root = etree.fromstring(doc if isinstance(doc, bytes) else doc.encode("utf-8"))
     changed = False
